@@ -112,6 +112,14 @@ def run(prog, rep, tier, repo):
                                  short(sk), ', '.join(sm.fname(f) for f in touched), sm.fname(ci), show(sm.inits[ci])), site_of(st.body))
                 elif om.clean(got) == want:
                     rep.ok('cache-coherent', key, '`%s` rebuilt as %s' % (sm.fname(ci), show(got)[:80]))
+                elif ci in getattr(eff, 'nested', ()):
+                    okn, whyn = om.nested_coherent(ci, got, exp[ci])
+                    if okn is True:
+                        rep.ok('cache-coherent', key, '`%s` retuned in place through its own setters to what new() builds' % sm.fname(ci))
+                    elif okn is False:
+                        rep.viol('cache-coherent', key, '%s retunes `%s` in place: %s' % (short(sk), sm.fname(ci), whyn), site_of(st.body))
+                    else:
+                        rep.undecided('cache-coherent', key, '`%s` retuned in place: %s' % (sm.fname(ci), whyn), site_of(st.body), proof=False)
                 elif ci not in derived:
                     rep.viol('cache-coherent', key, '%s overwrites `%s` with %s, but new() initialises it as %s' % (
                         short(sk), sm.fname(ci), show(got)[:80], show(exp[ci])[:80]), site_of(st.body))
@@ -243,6 +251,7 @@ def _check_update(prog, rep, sm, om, uf, param_fields, derived):
         return
     exp, mapping = om.expected(me, eff.state)
     problems = []
+    unread_nested = []
     for ci in sorted(set(exp) - set(param_fields)):
         got = eff.state.get(ci)
         depends = ci in derived
@@ -252,7 +261,14 @@ def _check_update(prog, rep, sm, om, uf, param_fields, derived):
             if depends:
                 problems.append('the derived field `%s` is not rebuilt' % sm.fname(ci))
         elif om.clean(got) != om.clean(exp[ci]):
-            problems.append('`%s` is left as %s where new() stores %s' % (sm.fname(ci), show(got)[:60], show(exp[ci])[:60]))
+            if ci in getattr(eff, 'nested', ()):
+                okn, whyn = om.nested_coherent(ci, got, exp[ci])
+                if okn is False:
+                    problems.append('`%s` is retuned in place: %s' % (sm.fname(ci), whyn))
+                elif okn is None:
+                    unread_nested.append('`%s` retuned in place: %s' % (sm.fname(ci), whyn))
+            else:
+                problems.append('`%s` is left as %s where new() stores %s' % (sm.fname(ci), show(got)[:60], show(exp[ci])[:60]))
     vals = [eff.state[fi] for fi in param_fields]
 
     def relevant(g):
@@ -276,6 +292,8 @@ def _check_update(prog, rep, sm, om, uf, param_fields, derived):
         problems.append('update() additionally rejects through {%s}' % '; '.join(sorted(show_guard(g) for g in got - want)))
     if problems:
         rep.viol('update', key, '; '.join(problems), site_of(uf.body))
+    elif unread_nested:
+        rep.undecided('update', key, '; '.join(unread_nested), site_of(uf.body), proof=False)
     else:
         rep.ok('update', key, 'update() stores %s, every other field as new() would, under the guards of new(): {%s}' % (
             ', '.join('%s := %s' % (sm.fname(fi), show(eff.state[fi])[:30]) for fi in param_fields),
